@@ -60,6 +60,64 @@ def random_numeric_run(rng, tier):
     return cfg, real, dict(k=k, lr0=int(round(lr * 1e6)), plan=sorted(plan))
 
 
+def lattice_first_steps(chk, tier, rng, seed):
+    """spec -> code with exact numbers: at lattice parameters and k = 0 the chain end states are the negative
+    batch itself, so the whole update is exact: theta' - theta = -lr * (mean_pos dE - mean_neg dE) with dE the
+    closed forms of spec/GradRBM.tla (whose derivative identity TLC checks).  Negative rows come from the
+    recorded draw (neg_batch_size != pos_batch_size)."""
+    import mpmath
+    import torch
+    import gradlib
+    import lattice
+    import terms
+    import tlc
+    pts = [lattice.random_point(rng, nvmax=3, nhmax=3, budget=60) for _ in range(25 if tier == "quick" else 300)]
+    pf = lattice.PointsFile(pts)
+    try:
+        res = tlc.run("GradRBM", constants={"TMax": 200, "Lanes": 16}, defs={"Archs": "{}", "Vals": "{1}"},
+                      invariants=["WellDefined", "GradIsDerivative", "LayoutBijection", "GradExport"],
+                      env={"POINTS_FILE": pf.path}, workers=8, timeout=1200)
+    finally:
+        pf.close()
+    chk.add_tlc(res, "GradRBM.tla (first-step lattice points)")
+    if res.violation:
+        if res.violation == "WellDefined":
+            raise common.MachineryError("lattice bound exceeded\n" + res.raw[-1500:])
+        chk.violation("spec:GradRBM:" + str(res.violation), dict(tlc=res.raw[-3000:]))
+        return
+    for n, e in enumerate(res.exports):
+        B, nv, nh = e["B"], e["nv"], e["nh"]
+        st = lattice.positive_state(dict(nv=nv, nh=nh, B=B, am=e["am"], ph=e["ph"]))
+        L = [[terms.mpf(gradlib.sigterm(B, t)) for t in row] for row in e["Lam"]]
+        N = rng.randint(2, 5)
+        data = [rng.randrange(2 ** nv) for _ in range(N)]
+        pb = rng.randint(1, N)
+        nbs = pb + rng.choice([1, 2])
+        lr = rng.choice([0.5, 0.1, 0.01])
+        cfg = dict(type="positive", startEp=1, epochs=1, N=N, posB=pb, negB=nbs, data=data, bases=[], sched=False,
+                   entryStop=False, again="no", perms="all", cbs=[{"t": "rec"}], vals=[], vars=[])
+        before = [p.detach().clone() for p in st.rbm_am.parameters()]
+        # only the first batch is exact (later batches start from parameters off the lattice)
+        real = trainrun.real_run(cfg, plan={("BE", 1, 0, 1)}, seed=seed + n, k=0, lr=lr, nn_state=st)
+        if real["error"] is not None:
+            chk.violation("lattice-step:exception:" + type(real["error"]).__name__, dict(cfg=cfg, error=repr(real["error"])))
+            continue
+        cg = next(ev for ev in real["hist"] if ev["k"] == "CG")
+        pos, neg = cg["pos"], cg["neg"]
+        npar = len(e["layout"])
+        grad = [sum(L[r][q] for r in pos) / len(pos) - sum(L[r][q] for r in neg) / len(neg) for q in range(npar)]
+        after = [p.detach().clone() for p in st.rbm_am.parameters()]
+        delta = torch.cat([(a - b).reshape(-1) for a, b in zip(after, before)]).tolist()
+        chk.evaluations += 1
+        for q in range(npar):
+            want = -mpmath.mpf(lr) * grad[q]
+            if abs(mpmath.mpf(delta[q]) - want) > 1e-12 + 1e-10 * abs(want):
+                chk.violation("lattice-step:update", dict(point=dict(nv=nv, nh=nh, B=B, am=e["am"]), cfg=cfg, lr=lr, slot=e["layout"][q],
+                                                          got=delta[q], expected=mpmath.nstr(want, 17), pos_rows=pos, neg_rows=neg))
+                break
+        chk.nontriv(("lattice-step", n))
+
+
 def run(tier, seed):
     chk = common.Check(PID, tier, seed)
     rng = random.Random(seed)
@@ -77,8 +135,19 @@ def run(tier, seed):
     behs = res.exports
     if tier == "quick" and len(behs) > 1200:
         behs = rng.sample(behs, 1200)
-    tc.replay_behaviours(chk, behs, seed, nontrivial=lambda b: any(e["k"] == "OS" for e in b["hist"]),
-                         opts=lambda n, b: dict(k=n % 4, time_flag=False))
+    import torch
+    OPTS = [(torch.optim.SGD, None), (torch.optim.SGD, {"momentum": 0.9}), (torch.optim.Adam, None),
+            (torch.optim.RMSprop, None), (torch.optim.SGD, {"momentum": 0.5, "nesterov": True})]
+    SCHEDS = [(None, None), (torch.optim.lr_scheduler.ExponentialLR, {"gamma": 0.9}),
+              (torch.optim.lr_scheduler.MultiStepLR, {"milestones": [2], "gamma": 0.1})]
+
+    def opts(n, b):
+        # the update PROTOCOL is the same for every optimizer / scheduler class the user may pass
+        ob, oa = OPTS[n % len(OPTS)]
+        sb, sa = SCHEDS[(n // len(OPTS)) % len(SCHEDS)]
+        return dict(k=n % 4, time_flag=False, opt_base=ob, opt_args=oa, sched_base=sb, sched_args=sa)
+    tc.replay_behaviours(chk, behs, seed, nontrivial=lambda b: any(e["k"] == "OS" for e in b["hist"]), opts=opts)
+    lattice_first_steps(chk, tier, rng, seed)
     # -- numeric traces
     runs = []
     extra = []
